@@ -4,6 +4,8 @@
  * (k-th offer accepted iff bit k of the accept pattern; a rejecting successor s takes the edge over iff FLIP bit s).
  *   1 activate()    2 / 3 run the oldest / newest spawned task    10+s successor s pulls with try_get (on failure it gives the edge back)
  *   20+s successor s pulls with try_reserve    30 release    31 consume    40+s register successor s (initially unregistered ones)
+ *   60 recovery: graph cancelled, wait_for_all (pending tasks get cancel()), the real graph::reset() (default flags), successors that hold the edge in pull mode
+ *      give it back (their own reset_receiver); the node must then be inactive, hold no item and no reservation, and work like a fresh one after activate()
  * Oracle: the body is never invoked before activate() nor while an unconsumed item is cached (=> no item overwritten / lost) nor while a
  * reservation is held; every offer / hand-out is the current cached item; it is offered only to push-mode successors, at most once per
  * successor per forwarding attempt; it is consumed exactly when a successor accepts it, try_get succeeds or a reservation is consumed -
@@ -26,16 +28,19 @@ static unsigned task_size(unsigned kind) { return vp_ft_size(); }
 static const int ops[] = { OPS };
 #define NOPS ((int)(sizeof ops / sizeof ops[0]))
 enum { M_PUSH = 1, M_PULL = 2, M_REMOVED = 3 };
-static int item[NPROD + 1]; static unsigned nprod, ncons, nbodycalls, activated, noffer, acc_bits, flip_bits, reserved;
+#ifndef NPROD2
+#define NPROD2 0          /* items the body produces after a reset */
+#endif
+static int item[NPROD + NPROD2 + 1]; static unsigned nprod, ncons, nbodycalls, activated, noffer, acc_bits, flip_bits, reserved;
 static unsigned mode[3]; static unsigned att_off[3], att_acc; static unsigned in_task;
-static unsigned last_rejected, nflip_total, npull_total;
+static unsigned last_rejected, nflip_total, npull_total, cancelled, nprod_max;
 u32 vp_ibody(u32* v) {
   nbodycalls++;
   VP_ASSERT(activated, "input_node body invoked before activate()");
   VP_ASSERT(in_task, "input_node body invoked outside a graph task");
   VP_ASSERT(nprod == ncons, "input_node body invoked while the previous item is still cached and unconsumed (it would be overwritten = lost)");
   VP_ASSERT(!reserved, "input_node body invoked while a reservation is held");
-  if (nprod >= NPROD) return 0;
+  if (nprod >= nprod_max) return 0;
   int x = (int)vp_nd(); for (unsigned i = 0; i < nprod; i++) __CPROVER_assume(item[i] != x);
   item[nprod++] = x; *v = (u32)x; return 1;
 }
@@ -66,7 +71,7 @@ static void run_one(int newest) {
   void* t = bag_take(newest);
   for (unsigned s = 0; s < 3; s++) att_off[s] = 0; att_acc = 0; in_task = 1;
   unsigned cons0 = ncons, prod0 = nprod;
-  u8* b = vp_run_task((struct S_class_tbb__detail__d1__task*)t, 0);
+  u8* b = vp_run_task((struct S_class_tbb__detail__d1__task*)t, cancelled);
   in_task = 0;
   /* one forwarding attempt: the outstanding item is consumed iff somebody accepted it */
   if (att_acc) { VP_ASSERT(ncons < nprod, "accepted item was not outstanding"); ncons++; }
@@ -82,7 +87,7 @@ static void settled(void) {
 }
 static void give_back(unsigned s) { vp_add_succ(s); mode[s] = M_PUSH; }
 static void run(unsigned accpat, unsigned flippat) {
-  fg_reset(); nprod = ncons = nbodycalls = activated = noffer = reserved = 0; acc_bits = accpat; flip_bits = flippat; in_task = 0; last_rejected = 0;
+  fg_reset(); nprod = ncons = nbodycalls = activated = noffer = reserved = 0; cancelled = 0; nprod_max = NPROD; acc_bits = accpat; flip_bits = flippat; in_task = 0; last_rejected = 0;
   for (unsigned s = 0; s < 3; s++) mode[s] = s < NSUCC ? M_PUSH : M_REMOVED;
   vp_init(NSUCC); vp_init_extra_succ(NSUCC);
   VP_ASSERT(bag_n == 0, "an inactive input_node spawned a task at registration");
@@ -100,6 +105,20 @@ static void run(unsigned accpat, unsigned flippat) {
       npull_total++; int out = (int)vp_nd(); unsigned r = vp_reserve((u32*)&out);
       VP_ASSERT(r == (nprod > ncons), "input_node try_reserve: success iff an item is cached");
       if (r) { VP_ASSERT(out == item[ncons], "reserved item is not the outstanding one"); reserved = 1; } else give_back(s); }
+    else if (op == 60) {
+      cancelled = 1;
+      for (int i = 0; i < BAGRUNS; i++) run_one(0);
+      VP_ASSERT(bag_n == 0 && vp_graph_refs() == 0, "graph wait count not 0 after every pending task was cancelled (wait_for_all would hang)");
+      unsigned ctx0 = n_ctx_reset;
+      vp_graph_reset(0);
+      VP_ASSERT(n_ctx_reset == ctx0 + 1 && vp_graph_active(), "graph::reset did not reset the context once / left the graph inactive");
+      VP_ASSERT(bag_n == 0 && vp_graph_refs() == 0, "reset() spawned a task / touched the wait count");
+      VP_ASSERT(!vp_active() && !vp_has_cached() && !vp_reserved(), "reset() left input_node state behind (active / cached item / reservation)");   /* WB */
+      for (unsigned s = 0; s < 3; s++) if (mode[s] == M_PULL) give_back(s);    /* the pulling successors' own reset: predecessor_cache::reset() */
+      VP_ASSERT(bag_n == 0, "an inactive (reset) input_node spawned a task at registration");
+      cancelled = 0; activated = 0; reserved = 0; ncons = nprod;             /* an outstanding item is discarded by reset (documented) */
+      nprod_max = nprod + NPROD2; if (nprod_max > NPROD + NPROD2) nprod_max = NPROD + NPROD2;
+    }
     else if (op == 30) { if (!reserved) continue; vp_release(); reserved = 0; }
     else if (op == 31) { if (!reserved) continue; vp_consume(); reserved = 0; consumed(item[ncons]); }
     else if (op >= 40 && op < 43) { unsigned s = op - 40; if (mode[s] != M_REMOVED) continue; vp_add_succ(s); mode[s] = M_PUSH; }
@@ -110,7 +129,10 @@ static void run(unsigned accpat, unsigned flippat) {
   VP_ASSERT(bag_n == 0, "VP bound: tasks still pending after BAGRUNS executions");
   VP_ASSERT(n_alloc[0] == n_free, "a finished task was not deallocated / deallocated twice");
   VP_ASSERT(nprod == ncons + (vp_has_cached() ? 1 : 0), "conservation: produced != consumed + cached");
-  VP_ASSERT(nbodycalls <= NPROD + 4, "harness: unexpectedly many body calls");
+  VP_ASSERT(nbodycalls <= NPROD + NPROD2 + 6, "harness: unexpectedly many body calls");
+#ifdef EXPECTALL   /* liveness of the reused node: with a willing successor registered every item was produced and delivered */
+  VP_ASSERT(nprod == nprod_max && ncons == nprod, "reused input_node did not produce / deliver all its items (stuck after reset)");
+#endif
 }
 static const unsigned accs[] = { ACCS };
 static const unsigned flips[] = { FLIPS };
